@@ -640,10 +640,13 @@ func (e *dispatchEnv) runValue(msg any, response bool, class string) {
 		}
 		e.ctx.Res.Count("dispatch." + class + "." + enc.codec + "." + impl)
 		if impl != "ok" {
+			if class == "item-context" {
+				c06Violate(e.ctx, line, class+":expected-ok", fmt.Sprintf("%s (%s): a batch item with a well-formed payload of the registered type is not decoded (%s: %v %s)", class, enc.codec, impl, derr, pn))
+			}
 			continue
 		}
 		c06Walk(e.ctx, line, ptr, 0)
-		if class == "conforming" {
+		if class == "conforming" || class == "item-context" {
 			var got []string
 			typeTrail(ptr, &got, 0)
 			if strings.Join(got, ",") != strings.Join(want, ",") {
@@ -819,6 +822,45 @@ func runDispatch(ctx *Ctx) {
 		e.runValue(&kmip.ResponseMessage{Header: kmip.ResponseHeader{ProtocolVersion: kmip.V1_4, BatchCount: 1},
 			BatchItem: []kmip.ResponseBatchItem{{Operation: kmip.Operation(b.Op), ResponsePayload: pl}}}, true, "adversarial-payload-under-other-op")
 	}
+	// ---- 5b. dispatch does not depend on the REST of the batch item: every registered operation x every result
+	// status (success, failed, pending, undone) with reason, message, batch item id, asynchronous correlation
+	// value and message extension present; requests with batch item id and message extension; the payload
+	// must come back with the registered type. Unregistered operations under a failed status stay opaque. ----
+	{
+		pc := &popCfg{r: r, s: s, fill: 1, respectGating: true, textMode: 2}
+		ver := kmip.V1_4
+		pc.ver = &ver
+		ext := &kmip.MessageExtension{VendorIdentification: "acme", CriticalityIndicator: false, VendorExtension: ttlv.Struct{{Tag: 0x540001, Value: int32(1)}}}
+		for _, o := range kmip.VerifDumpOperations() {
+			for st := kmip.ResultStatus(0); st <= 3; st++ {
+				pl := kmip.VerifNewResponsePayload(o.Operation)
+				pc.populate(reflect.ValueOf(pl).Elem())
+				bi := kmip.ResponseBatchItem{Operation: o.Operation, UniqueBatchItemID: []byte{1, 2}, ResultStatus: st, ResponsePayload: pl, MessageExtension: ext}
+				if st != kmip.ResultStatusSuccess {
+					bi.ResultReason, bi.ResultMessage = kmip.ResultReasonGeneralFailure, "failed"
+				}
+				if st == kmip.ResultStatusOperationPending {
+					bi.AsynchronousCorrelationValue = []byte{9}
+				}
+				e.runValue(&kmip.ResponseMessage{Header: kmip.ResponseHeader{ProtocolVersion: kmip.V1_4, BatchCount: 1}, BatchItem: []kmip.ResponseBatchItem{bi}}, true, "item-context")
+			}
+			rq := kmip.VerifNewRequestPayload(o.Operation)
+			pc.populate(reflect.ValueOf(rq).Elem())
+			e.runValue(&kmip.RequestMessage{Header: kmip.RequestHeader{ProtocolVersion: kmip.V1_4, BatchCount: 1},
+				BatchItem: []kmip.RequestBatchItem{{Operation: o.Operation, UniqueBatchItemID: []byte{1, 2}, RequestPayload: rq, MessageExtension: ext}}}, false, "item-context")
+		}
+		for _, op := range []uint32{0x06, 0x30, 0x7FFFFFFF} {
+			for st := int64(1); st <= 3; st++ {
+				pl := &tree.Item{Tag: kmip.TagResponsePayload, Kind: tree.KStruct, Children: opaqueKids()}
+				m := messageTree(true, op, pl)
+				bi := m.Children[1]
+				bi.Children = []*tree.Item{bi.Children[0], {Tag: kmip.TagResultStatus, Kind: tree.KEnum, Int: st}, {Tag: kmip.TagResultReason, Kind: tree.KEnum, Int: 1},
+					{Tag: kmip.TagResultMessage, Kind: tree.KText, Data: []byte("failed")}, pl}
+				e.runTree(m, true, "ok", true, "unregistered-op-failed-status")
+			}
+		}
+	}
+
 	// ---- 6. operation codes that differ from a registered one only in their high bytes (a registry indexed by
 	// a truncated code, or compared after a narrowing conversion, would take them for the registered operation) ----
 	for _, o := range kmip.VerifDumpOperations() {
@@ -935,7 +977,7 @@ func runDispatch(ctx *Ctx) {
 	// coverage floor: every directed class must have produced decodes in the three encodings
 	var missing []string
 	for _, class := range []string{"unregistered-op", "opaque-attribute", "import-wellformed", "import-no-object-type", "conforming",
-		"unregistered-op-high-bits", "near-standard-attribute-name", "object-matrix-same-type", "object-matrix-other-type", "object-matrix-unregistered-type"} {
+		"unregistered-op-high-bits", "item-context", "unregistered-op-failed-status", "near-standard-attribute-name", "object-matrix-same-type", "object-matrix-other-type", "object-matrix-unregistered-type"} {
 		for _, codec := range []string{"ttlv", "xml", "json"} {
 			if ctx.Res.Distribution["dispatch."+class+"."+codec+".ok"]+ctx.Res.Distribution["dispatch."+class+"."+codec+".err"] == 0 {
 				missing = append(missing, class+"/"+codec)
